@@ -19,7 +19,7 @@ import vlib
 
 META = {
     "category": "proof",
-    "text": "Rocq theorems over the reals (Properties_C11.v, 31 theorems) about a hand model (coq/C11/MathDefs.v) of the fallback "
+    "text": "Rocq theorems over the reals (Properties_C11.v, 32 theorems) about a hand model (coq/C11/MathDefs.v) of the fallback "
             "bodies in src/math.c. PROVED for all real arguments: asinh/acosh/atanh equal the ln definitions (shown to be the "
             "inverses of sinh/cosh/tanh) exactly on the middle ranges of their splits and within proved method-error bounds on "
             "the outer ranges, giving one relative bound 2^-53 over the whole domain and hence across every split point; "
